@@ -3,6 +3,8 @@
 import json
 props=[json.loads(l) for l in open('/verif/properties.jsonl')]
 CLAIMED = {
+ 'C13': ("text of string(...) is the same for every Go map iteration order (order is a symbolic schedule); evaluation writes nothing to stdout except through print; every history of <= 3 compile/invoke steps that reuses one *types.Env and one *val.Env gives the fresh-engine result, on all four back ends, through the public facade",
+         "maps of 2 (quick) / 3 (thorough) entries; histories of length 3 over two expressions; host values through conv not covered (no reflect model)"),
  'C18': ("distinct finite doubles of any magnitude never render alike, never collide as map keys or set elements (solver over all pairs); ==, rendering, key identity, isset and union/intersect/diff agree on pairs of catalogue values with permuted fields; rendering is invariant under field order, insertion order and every map iteration order; shared sub-values render like unshared ones",
          "tolerance law for two numbers (identical or > 1e-9 apart) only in the thorough tier; structural pairs over 11 types, sizes <= 1 (quick) with numbers from a concrete pool; NaN and ±Inf outside the equality laws"),
  'C02': ("xs[i], m[k], a % b decided for every double operand on all four back ends (fail exactly when the operation is undefined, never an internal fault); 17 total built-in programs never fail for any operand",
